@@ -5,7 +5,7 @@ from .. import lean, proto, gen, util
 
 REQUIRED = ['Petl.C12.' + n for n in (
     'transforms_one_row_per_row cut_cells cut_cutout_cover stack_pads_trims annex_pads addfield_frame addrownumbers_frame '
-    'addcolumn_frame convert_frame header_functions_keep_data filldown_frame fillright_frame accessors_pad '
+    'movefield_is_a_permutation movefield_cells addcolumn_frame convert_frame header_functions_keep_data filldown_frame fillright_frame accessors_pad '
     'asindices_index_priority asindices_names_left_to_right pyInsert_spec cat_aligns_by_name').split()]
 
 CELLS = [None, 1, 2, 2.5, 'a', 'b', '', True, (1, 'a'), b'x', 'NA', -999, 0]
@@ -140,9 +140,10 @@ def run(ctx):
             rv = rng.random() < 0.5
             add('sortheader', 'xf sortheader %s %s %s' % (proto.enc_bool(rv), me, tt), lambda T=T, m=m, rv=rv: etl.sortheader(T, reverse=rv, missing=m),
                 dict(base, missing=repr(m), reverse=rv), nt)
-            mf = rng.choice(hdr)
-            mi = rng.choice([0, 1, w - 1, w, -1])
-            add('movefield', 'xf movefield %s %d N %s' % (proto.enc(mf), mi, tt), lambda T=T, mf=mf, mi=mi: etl.movefield(T, mf, mi), dict(base, field=mf, index=mi), nt)
+        # movefield, also over duplicate field names: only the first field of that name moves, no column is lost
+        mf = rng.choice(hdr)
+        mi = rng.choice([0, 1, w - 1, w, -1])
+        add('movefield', 'xf movefield %s %d N %s' % (proto.enc(mf), mi, tt), lambda T=T, mf=mf, mi=mi: etl.movefield(T, mf, mi), dict(base, field=mf, index=mi), nt)
         k = rng.choice([0, 1, 2, len(T), len(T) + 1])
         add('skip', 'skip %d %s' % (k, tt), lambda T=T, k=k: etl.skip(T, k), dict(base, n=k), nt)
         # fills (filldown needs rows as long as the filled fields)
